@@ -1,17 +1,21 @@
 #!/bin/bash
-# usage: tools/run_benign.sh <id> -- applies a property-PRESERVING change from /verif/benign/<id>/patch.diff to /repo, runs the pinned
-# suite and every quick check (none may report a violation), reverts.
+# usage: tools/run_benign.sh <id> -- applies a property-PRESERVING change from /verif/benign/<id>/patch.diff to a scratch worktree of
+# /repo (VERIF_REPO / VERIF_OUT are set, so neither /repo nor /verif/evidence is touched), runs the pinned suite and every quick check
+# (none may report a violation), removes the worktree.
 id=$1
 p=/verif/benign/$id/patch.diff
-cd /repo || exit 2
-if ! git diff --quiet; then echo "repo dirty"; exit 2; fi
-git apply $p 2>/dev/null || git apply -3 $p 2>/dev/null || { echo "$id: patch does not apply"; git checkout HEAD -- . ; git reset -q; exit 2; }
-git reset -q 2>/dev/null
-cd /verif && /venv/bin/python -c "
-import sys; sys.path.insert(0,'/verif')
+wt=/scratch/benign/repo-$id
+mkdir -p /scratch/benign
+git -C /repo worktree remove --force $wt 2>/dev/null
+git -C /repo worktree add --detach -f $wt HEAD >/dev/null 2>&1 || exit 2
+cp /repo/src/cutadapt/_version.py $wt/src/cutadapt/ 2>/dev/null
+cd $wt || exit 2
+git apply $p 2>/dev/null || git apply -3 $p 2>/dev/null || { echo "$id: patch does not apply"; git -C /repo worktree remove --force $wt; exit 2; }
+export VERIF_REPO=$wt VERIF_OUT=/scratch/benign/out-$id
+cd /verif && PYTHONPATH=$wt/src:/verif /venv/bin/python -c "
 from vf import common; common.rebuild()" 2>/dev/null
-t=$(cd /repo && /venv/bin/python -m pytest -q -p no:cacheprovider --timeout=900 --deselect tests/test_command.py::test_run_cutadapt_process 2>&1 | tail -1)
+t=$(cd $wt && PYTHONPATH=$wt/src /venv/bin/python -m pytest -q -p no:cacheprovider --timeout=900 --deselect tests/test_command.py::test_run_cutadapt_process 2>&1 | tail -1)
 echo "$id tests: $t"
 cd /verif
 tools/run_all.sh quick 0 2>&1 | grep -E "^C[0-9]+ exit" | awk -v id=$id '{print id, $1, $2, $4, $5}'
-cd /repo && git checkout -- . && git status --short | grep -v '^??' | head -3
+git -C /repo worktree remove --force $wt; rm -rf /scratch/benign/out-$id
